@@ -174,6 +174,7 @@ func main() {
 		w.access = map[string]*cellAccess{}
 		w.accessName = map[string]string{}
 		w.run(root)
+		w.declareStaticReach(root)
 		racy, frozen, conflict := map[string]bool{}, map[string]bool{}, map[string]bool{}
 		for k, a := range w.access {
 			if a.racy() || (*race && a.shared()) {
@@ -207,6 +208,7 @@ func main() {
 			resetGlobals()
 			root = w2.findEntry(*entry)
 			w2.run(root)
+			w2.declareStaticReach(root)
 			if *race {
 				w2.raceObligations()
 			}
